@@ -175,4 +175,68 @@ PROPS['C05'] = dict(
            'chain sweep of the C routines exists and has recorded genuine defects with end-of-series psi (KF-C05-1)',
 )
 
+
+def _law_bridges(run):
+    """z3 obligations that connect the specification theory (specs/dtw.py) to the hypotheses of the Lean
+    lemmas W_relax / W_swap: comparable settings give a `Relaxes` pair; the swapped problem is `swap`."""
+    import z3
+    from dvc.state import Obligation
+    from dvc.vals import Val, vlt, vinf, vzero, vadd, order_axioms, arith_axioms
+    from dvc import leancheck
+    from specs.dtw import band
+    from specs.bounds import float_sym_axioms, idist_term
+    st = leancheck.ensure(['Bellman.lean', 'DTWLaws.lean'])
+    run.evidence_extra['lean'] = st
+    if not all(v['accepted'] for v in st.values()):
+        from dvc.state import CannotBind
+        raise CannotBind('a Lean lemma file was rejected: %s' % st)
+    i, j, r, c, w, w2, p, p2 = z3.Ints('i j r c w w2 p p2')
+    x, y, m, m2, pen, pen2, d = z3.Consts('x y m m2 pen pen2 d', Val)
+    le = lambda a, b: z3.Not(vlt(b, a))
+    obs = []
+
+    def ob(name, hyps, goal, note, ax=()):
+        obs.append(Obligation('bridge::' + name, 'bridge', hyps, goal, 'lemma:C10-bridge', props=('C10',), note=note,
+                              axioms=list(ax)))
+    ob('window-relaxes-band', [w >= 1, w <= w2, band(i, j, r, c, w)], band(i, j, r, c, w2),
+       'a wider window only adds cells to the band (allowed ⊆ allowed\')')
+    ob('max_step-relaxes-allowed', [le(m, m2), z3.Not(vlt(m, d))], z3.Not(vlt(m2, d)),
+       'a larger max_step only adds admissible pairs', order_axioms())
+    ob('psi-relaxes-border', [p <= p2, 0 <= j], le(z3.If(j <= p2, vzero, vinf), z3.If(j <= p, vzero, vinf)),
+       'more psi relaxation only lowers the virtual border (init\' <= init)', order_axioms())
+    ob('penalty-monotone', [le(pen, pen2), le(x, y), x != z3.Const('vninf', Val), y != z3.Const('vninf', Val)],
+       le(vadd(x, pen), vadd(y, pen2)), 'x <= y and pen <= pen\' give x+pen <= y+pen\' (rounded addition is monotone)',
+       order_axioms() + arith_axioms())
+    ob('band-symmetric', [w >= 1], band(i, j, r, c, w) == band(j, i, c, r, w),
+       'the band of the swapped problem is the transposed band')
+    mt = z3.Int('metric')
+    ob('cost-symmetric', [z3.Or(mt == 0, mt == 1)], idist_term(mt, x, y) == idist_term(mt, y, x),
+       'the point distance is symmetric ((a-b)^2 and |a-b| under sign-symmetric rounding)',
+       float_sym_axioms() + [z3.ForAll([x, y], __import__('dvc.vals', fromlist=['vabs']).vabs(
+           __import__('dvc.vals', fromlist=['vsub']).vsub(x, y)) == __import__('dvc.vals', fromlist=['vabs']).vabs(
+           __import__('dvc.vals', fromlist=['vsub']).vsub(y, x)))])
+    return obs
+
+
+PROPS['C10'] = dict(
+    modules=['contracts.dtw_py', 'contracts.dtw_c'],
+    contracts=[],
+    lemmas=[],
+    extra_obligations=_law_bridges,
+    bounded={'laws-on-real-code': lambda run: __import__('bounded.laws_sweep', fromlist=['x']).sweep_laws(run)},
+    level='proof',
+    level_text='Symmetry and option monotonicity are proved for the specification W that both engines are proved to compute '
+               '(C01, C02): Lean lemmas W_swap (swapped problem = transposed matrix) and W_relax (wider window, larger '
+               'max_step, more psi, smaller penalty never increase a cell), with z3 bridge obligations showing that '
+               'comparable settings satisfy the lemma hypotheses. Identity, non-negativity, window-1 = Euclidean and all '
+               'laws on the real code of both engines are checked by a bounded sweep.',
+    level_note='Trusted: correspondence between the z3 spec text and the Lean Params structure (A4, by inspection), '
+               'IEEE sign-symmetric rounding, solvers. Identity / non-negativity / window-1 are bounded only.',
+    trusted_base=['A4: z3 spec <-> Lean definitions', 'Lean kernel', A7],
+    assumptions=['A4', A7],
+    not_decided=['identity, non-negativity, window 1 = Euclidean: bounded sweep only',
+                 'monotonicity of the psi-relaxed *end* selection (Dend): follows from min over a larger set, argued not machine-checked'],
+    technique='Lean 4 lemmas over the DTW recurrence + z3 bridge obligations + bounded law sweep on the real engines',
+)
+
 NOT_APPLICABLE = {p: 'not decided yet: machinery for this property is still being built (see DESIGN.md §9 order of work)' for p in ['C01', 'C02', 'C03', 'C04', 'C05', 'C06', 'C07', 'C08', 'C09', 'C10', 'C11', 'C12', 'C13', 'C14', 'C15', 'C16', 'C17', 'C18', 'C19', 'C20'] if p not in PROPS}
